@@ -589,8 +589,9 @@ def_realloc_caches(kdump_ctx_t *ctx)
 		return status;
 	}
 
+	/* Pages of the old cache may still be held by libaddrxlat. */
 	if (ctx->shared->cache)
-		cache_free(ctx->shared->cache);
+		cache_release(ctx->shared->cache);
 	ctx->shared->cache = cache;
 
 	return KDUMP_OK;
